@@ -186,6 +186,9 @@ def _as_conditional_assign(s):
     return new
 
 
+OPAQUE_BORN = set()
+
+
 class Outcome:
     def __init__(self, state, kind, value=None, node=None):
         self.state, self.kind, self.value, self.node = state, kind, value, node   # kind: return | raise | fall
@@ -707,6 +710,14 @@ class Interp:
             if all(isinstance(v, Poly) for v in vs):
                 return RangeV(C(0), vs[0], e) if len(vs) == 1 else RangeV(vs[0], vs[1] - vs[0], e)
             return Opaque(U(e))
+        if txt in ('math.prod', 'prod', 'np.prod', 'numpy.prod', 'sum') and len(args) == 1 and not e.keywords:
+            v = self.eval(args[0], st, func, selfobj)
+            if isinstance(v, Tup) and all(isinstance(x, Poly) for x in v.elts):
+                acc = C(0) if txt == 'sum' else C(1)
+                for x in v.elts:
+                    acc = acc + x if txt == 'sum' else acc * x
+                return acc
+            return Opaque(U(e))
         if txt == 'divmod' and len(args) == 2:
             a = self.eval(args[0], st, func, selfobj)
             b = self.eval(args[1], st, func, selfobj)
@@ -852,6 +863,9 @@ class Interp:
                 # any non-negative integer has a digit expansion; the name only chooses the radix
                 nm = '%s@%s' % (target.id, func.name)
                 value = self.digit_var(nm, ax)
+                # remembered: a quantity standing for "some integer the evaluator could not express"; nothing may be
+                # concluded from its form (only from constraints placed on it)
+                OPAQUE_BORN.add(nm)
             st.env[target.id] = value
         elif isinstance(target, (ast.Tuple, ast.List)):
             if isinstance(value, Tup) and len(value.elts) == len(target.elts):
